@@ -70,7 +70,9 @@ EXTRA = {
         "a lone surrogate in a cell cannot be sent to the model driver (UTF-8): such streams are judged by the oracle "
         "only; tables of more than ~1100 rows likewise (the model comparison of long tables stops at 1025 rows)",
         "stdout / stderr are replaced by ASCII-only strict text streams for part of the reads: a repair must not depend "
-        "on what the console can encode (table names in the generated inputs are ASCII)",
+        "on what the console can encode. Table names are ASCII unless known_findings.json lists the open finding "
+        "`report_print_unencodable` (report() prints the table name: a lenient read is refused when the console cannot "
+        "encode it) — then non-ASCII names are generated and the present behaviour is reported under that key",
     ],
     "explanation": "Props/C13.lean: finish_closed (closed form of duplicate-name repair, short-row repair, column "
                    "parsing and report(): values as a function of layout + replacement values, fixer grown by exactly "
@@ -529,15 +531,23 @@ def block_entries(text):
         n = int(m.group(1))
         if 0 < n <= len(entries) and entries[-n:] not in cands:
             cands.append(entries[-n:])
-    return cands or [entries]
+    # last resort: all entries — `names_defects` then takes as many of the LAST ones as the block has defects (the count
+    # in the summary line need not be the number of entries: a fixer may count one fix per missing cell)
+    return cands + [("all", entries)]
 
 
 def names_defects(cands, tab, d, out, case, what="strict failure message"):
     """some candidate reading of the message names every defect of the block (and nothing else)"""
     for entries in cands:
-        if expect_message_names_defects(entries, tab, d, Outcome(), case, what):
+        if isinstance(entries, tuple):
+            if expect_message_names_defects(entries[1], tab, d, Outcome(), case, what, take_suffix=True):
+                return True
+        elif expect_message_names_defects(entries, tab, d, Outcome(), case, what):
             return True
-    return expect_message_names_defects(cands[0], tab, d, out, case, what)
+    first = cands[0]
+    if isinstance(first, tuple):
+        return expect_message_names_defects(first[1], tab, d, out, case, what, take_suffix=True)
+    return expect_message_names_defects(first, tab, d, out, case, what)
 
 
 def _has_number(entry, n):
@@ -545,7 +555,7 @@ def _has_number(entry, n):
     return _re.search(r"(?<![\w.])%d(?![\w.])" % n, entry) is not None
 
 
-def expect_message_names_defects(entries, tab, d, out, case, what="strict failure message"):
+def expect_message_names_defects(entries, tab, d, out, case, what="strict failure message", take_suffix=False):
     """the message entries of a block NAME every injected defect — judged by containment, not by wording: an illegal
     cell by its value text as the fixer receives it (and the vtype), a duplicate column by its name and position, a
     short row by its row number; every defect needs an entry of its own (a matching), and what is left over may only
@@ -572,7 +582,10 @@ def expect_message_names_defects(entries, tab, d, out, case, what="strict failur
     # filler cells of short rows that are illegal for their column (onoff) are named too: by the filler text
     n_fill = sum(1 for i, c in d["short"].items() for j in range(c, len(tab["names"])) if tab["kinds"][j] == "onoff")
     for _ in range(n_fill):
-        wants.append(("filler cell", "the filler text 'NaN' and vtype onoff", lambda e: "NaN" in e and "onoff" in e))
+        wants.append(("filler cell", "a missing-value filler text (NaN) and vtype onoff",
+                      lambda e: "nan" in e.lower() and "onoff" in e))
+    if take_suffix:
+        entries = entries[-len(wants):] if wants else []
     # a matching that gives every defect an entry of its own (tiny sizes: augmenting paths)
     adj = [[k for k, e in enumerate(entries) if pred(e)] for (_, _, pred) in wants]
     match_of_entry = {}
@@ -644,6 +657,8 @@ def check_lenient_table(t, base, tab, d, rep, fx, out, case):
             elif cut:
                 want = {"text": "NaN", "num": "nan", "datetime": "NaT"}.get(k, rep["onoff"])
                 what, key = "a cut-off cell does not hold the missing-value filler", "filler"
+                if k == "text" and got in ("", "nan", "NaN", "NAN"):
+                    continue                              # any missing-value spelling is a missing-value filler
             elif (i, j) in ill:
                 want = rep[k]
                 what, key = "an illegal cell does not hold the fixer's replacement", "replacement:" + k
@@ -659,16 +674,14 @@ def check_lenient_table(t, base, tab, d, rep, fx, out, case):
             return False
     if fx is not None:
         lo = len(ill) + len(d["dups"]) + len(d["short"])
-        hi = lo + sum(n_col - c for c in d["short"].values()) + 2 * len(pad)
+        hi = lo + 2 * sum(n_col - c for c in d["short"].values()) + 2 * len(pad)    # (>= 1 per short row: up to one per
+        # missing cell, plus the filler cells that are themselves illegal)
         fixes = fx["fixes"]
         if not (lo <= fixes <= hi):
             out.fail("fixer counters do not equal #illegal + #duplicates + (>= 1 per short row)", case,
                      fx, {"at_least": lo, "at_most": hi}, key="counts")
             return False
-        if fx.get("n_msgs_delta") is not None and fx["n_msgs_delta"] != fixes:
-            out.fail("the number of messages logged differs from the number of fixes counted", case, fx, fixes,
-                     key="one_message_per_fix")
-            return False
+        # (how many messages a fix logs is not part of the statement: every defect must be NAMED — judged on the log)
     return True
 
 
@@ -730,6 +743,11 @@ def has_surrogate(rows):
     return any(isinstance(c, str) and any(0xD800 <= ord(ch) <= 0xDFFF for ch in c) for r in rows for c in r)
 
 
+def finding_listed(key):
+    return any(k.get("status") == "open" and k.get("property") == "C13" and k.get("key") == key
+               for k in common.load_known_findings())
+
+
 def gen_stream(seed, idx, n_long=None):
     """everything random about one stream case, drawn here; the judge below uses no randomness"""
     rng = make_rng(seed, f"C13:{idx}" if n_long is None else f"C13L:{idx}:{n_long}")
@@ -744,6 +762,12 @@ def gen_stream(seed, idx, n_long=None):
         tabs = [gen_table(rng, 0, native, n_row=n_long, transposed=(idx % 5 == 4))] + \
             ([gen_table(rng, 1, native)] if rng.random() < 0.5 else [])
         n_tab = len(tabs)
+    odd_names = False
+    if n_long is None and rng.random() < 0.15 and finding_listed("report_print_unencodable"):
+        # table names a narrow console cannot encode (generated only while the finding is listed as open)
+        odd_names = True
+        for t in tabs:
+            t["name"] = "é" + t["name"]
     if n_long is None:
         defs = [inject(rng, t, native) for t in tabs]
     else:
@@ -776,7 +800,7 @@ def gen_stream(seed, idx, n_long=None):
     return {"stream": "stream" if n_long is None else "long", "seed": seed, "index": idx, "n_long": n_long,
             "native": native, "tabs": tabs, "defs": defs, "fk": fk, "tracker": tracker, "use_text": use_text,
             "rows": rows, "text": text, "starts": starts, "clean_grids": clean_grids, "bad_grids": bad_grids,
-            "abut": abut, "trailing_blank": trailing_blank,
+            "abut": abut, "trailing_blank": trailing_blank, "odd_names": odd_names,
             # repair must not depend on what stdout can encode: part of the reads run with an ASCII-only stdout/stderr
             "ascii_stdout": rng.random() < 0.4,
             "reread_seq": None if n_long is not None else
@@ -861,6 +885,19 @@ def judge_stream(sp, out, model_ok, ops, pend):
         for k, (t, d, st) in enumerate(zip(tabs, defs, starts)):
             if stopped:
                 break
+            if sp.get("odd_names") and sp["ascii_stdout"] and fk == "plain_lenient" and has_def[k]:
+                # known finding: report() prints the table name; a console that cannot encode it turns the lenient
+                # repair into a located refusal
+                if st not in delivered:
+                    out.count("known finding (report_print_unencodable) observed")
+                    if out.dist["known finding (report_print_unencodable) observed"] <= 2:
+                        out.fail("a lenient read of a repairable table was refused because stdout cannot encode the table name",
+                                 dict(case, table=k), {"issues": impl["issues"]}, "the repaired table",
+                                 key="report_print_unencodable")
+                    dirty = True
+                    if tracker == "raising" and st in impl["issues"]:
+                        stopped = True
+                    continue
             if d.get("tshort") or offset_clash(t, d, mk):
                 # judged on its own terms; the general per-table oracle below does not apply to this table
                 if d.get("tshort"):
@@ -934,6 +971,7 @@ def judge_stream(sp, out, model_ok, ops, pend):
         if not ok_case:
             return
         if not strict and (impl["issues"] or impl["ending"] != "exhausted") and \
+                not (sp.get("odd_names") and sp["ascii_stdout"] and fk == "plain_lenient") and \
                 not any(offset_clash(t, d, mk) for t, d in zip(tabs, defs)):
             out.fail("a lenient read reported an error for repairable defects", case,
                      {"issues": impl["issues"], "ending": impl["ending"]}, None, key="lenient_failed")
@@ -971,9 +1009,13 @@ def sheet_table_origins(xrows, fixer_kind, tracker, to):
     arg, _ = fixer_arg(fixer_kind)
     rec = []
     for sname, rows in xrows.items():
-        handlers = {bt: B.make_raw_cells for bt in BlockType}
-        handlers.update(dict(B.DEFAULT_HANDLERS))
-        base = dict(B.TABLE_HANDLERS)[to]
+        try:
+            handlers = {bt: B.make_raw_cells for bt in BlockType}
+            handlers.update(dict(B.DEFAULT_HANDLERS))
+            base = dict(B.TABLE_HANDLERS)[to]
+            B.parse_blocks_stable, B.make_fixer
+        except (AttributeError, KeyError, TypeError):
+            return None                  # these module-level names are not API: the origins are then unobservable
 
         def table_handler(cells, *a, _base=base, _sname=sname, **kw):
             origin = kw.get("origin", a[0] if a else None)
@@ -1034,14 +1076,16 @@ def run_excel(path, fixer_kind, tracker, to, xrows):
         issues = [ending["InputError"]] if isinstance(ending, dict) and "InputError" in ending else []
         texts = [err] if err is not None else []
     tidx = [k for k, b in enumerate(blocks) if b["ty"] == "TABLE"]
+    unobservable = False
     if to != "pdtable" and tidx:
-        rec = sheet_table_origins(xrows, fixer_kind, tracker, to) or []
+        rec = sheet_table_origins(xrows, fixer_kind, tracker, to)
+        unobservable, rec = rec is None, rec or []
     tables = {}
     if len(tidx) == len(rec):
         for key, k in zip(rec, tidx):
             tables[key] = (blocks[k]["val"], snaps[k])
     return {"blocks": blocks, "tables": tables, "n_tables": len(tidx), "issues": issues, "texts": texts,
-            "ending": ending}
+            "ending": ending, "unobservable": unobservable}
 
 
 def table_view(val, to):
@@ -1107,6 +1151,9 @@ def workbook_case(seed, idx, out, model_ok, ops, pend, tmpdir):
         return
     stopped = False
     dirty = False
+    if impl["unobservable"]:
+        out.count("workbook: origin rows unobservable for this form, per-table oracle skipped")
+        plan = []
     for sname, st, t, d in plan:
         if stopped:
             break
@@ -1192,7 +1239,8 @@ def judge_transposed_short(out, case, t, d, st, impl, delivered, strict, rep):
         if st in delivered:
             dev, seen = "a strict read delivered a transposed table whose value rows are cut short", "delivered"
         elif st in impl["issues"]:
-            cands = block_entries(impl["issue_texts"][impl["issues"].index(st)]) or [[]]
+            cands = [c[1] if isinstance(c, tuple) else c
+                     for c in (block_entries(impl["issue_texts"][impl["issues"].index(st)]) or [[]])]
             named = any(all(any(_has_number(e, i) for e in entries) for i in short_rows) for entries in cands)
             if not named:
                 dev, seen = "the strict failure message does not name the value rows cut short in a transposed table", \
@@ -1227,6 +1275,38 @@ def f5_witness(out):
            "data": [["1", "x"], ["2", "x"], ["3", "x"]]}
     d = {"illegal": {}, "dups": {}, "short": {}, "tshort": {1: 1}}
     judge_transposed_short(out, {"stream": "f5-witness", "rows": grid_to_json(rows)}, tab, d, 0, impl, delivered, True, STOCK)
+
+
+def long_lived_fixer_case(out, thorough):
+    """ONE fixer instance over a long stream: 750 small tables with 3 illegal cells each (2250 messages in a log that
+    is never cleared). Strict + collecting: every table is reported and the report of the LAST table still names its own
+    three cells; lenient: every table delivered, counters 3 per block, 2250 messages in the log at the end"""
+    n = 1500 if thorough else 750
+    rows = []
+    for k in range(n):
+        rows += [["**s%d" % k], ["all"], ["v"], ["m"], ["bad%da" % k], ["1.5"], ["bad%db" % k], ["bad%dc" % k]]
+    case = {"stream": "long-lived-fixer", "tables": n, "rows": {"see": "n tables of one numeric column, 3 illegal cells each"}}
+    out.evaluations += 1
+    out.count("long-lived fixer: tables", n)
+    strict = run_impl(rows=rows, fixer_kind="strict", tracker="collecting")
+    if strict["ending"] != "exhausted" or len(strict["issues"]) != n:
+        out.fail("a strict shared fixer did not report every defective table of a long stream", case,
+                 {"ending": strict["ending"], "reported": len(strict["issues"])}, n, key="long_lived:strict_reports")
+        return
+    tab = {"name": "s%d" % (n - 1), "names": ["v"], "kinds": ["num"], "units": ["m"], "transposed": False,
+           "data": [["x"], ["1.5"], ["x"], ["x"]]}
+    d = {"illegal": {(0, 0): "bad%da" % (n - 1), (2, 0): "bad%db" % (n - 1), (3, 0): "bad%dc" % (n - 1)},
+         "dups": {}, "short": {}, "tshort": {}}
+    cands = block_entries(strict["issue_texts"][-1]) or [[]]
+    if not names_defects(cands, tab, d, out, case, what="the report of the last table of a long stream"):
+        return
+    len_ = run_impl(rows=rows, fixer_kind="lenient", tracker="collecting")
+    fixes = [sn["fixes"] for sn in len_["snaps"] if sn]
+    logged = len(len_["fixer"]["msgs"]) if len_["fixer"] else None
+    if len_["issues"] or len(len_["blocks"]) != n or any(f != 3 for f in fixes) or logged != 3 * n:
+        out.fail("a lenient shared fixer over a long stream lost tables, counts or messages", case,
+                 {"delivered": len(len_["blocks"]), "counters other than 3": [f for f in fixes if f != 3][:5], "messages": logged},
+                 {"delivered": n, "messages": 3 * n}, key="long_lived:lenient")
 
 
 def many_dups_case(out, model_ok, ops, pend):
@@ -1427,11 +1507,12 @@ def run(tier, seed, model_ok, translator, search=False):
         one_case(seed, idx, out, model_ok, ops, pend)
     # defect injection into LONG tables: a ladder of row counts (always one above each of 1024, 4096, 8192)
     lrng = make_rng(seed, "C13:ladder")
-    ladder = SIZE_LADDER + [20011] if thorough else sorted(set(lrng.sample(SIZE_LADDER, 3) + [129, 1025, 4097, 8193]))
+    ladder = SIZE_LADDER + [20011] if thorough else sorted(set(lrng.sample(SIZE_LADDER, 3) + [129, 1025, 4097, 8193, 10007]))
     for n in ladder:
         for rep_i in range(5 if thorough else (5 if n <= 300 else 3 if n <= 1100 else 1)):
             one_case(seed, rep_i, out, model_ok, ops, pend, n_long=n)
     many_dups_case(out, model_ok, ops, pend)
+    long_lived_fixer_case(out, thorough)
     for idx in range(600 if thorough else 120):
         direct_case(seed, idx, out, model_ok, ops, pend)
     for idx in range(300 if thorough else 60):
@@ -1534,14 +1615,8 @@ def run(tier, seed, model_ok, translator, search=False):
 
 
 def join_message_lines(lines):
-    """messages are joined by newlines and may contain newlines themselves (cell text): re-join continuation lines"""
-    out = []
-    for l in lines:
-        if l.startswith(("Duplicate column '", "Missing data in row ", "Illegal value '")) or not out:
-            out.append(l)
-        else:
-            out[-1] += "\n" + l
-    return out
+    """the entries of a message text: one per line (generated cells hold no newline), whatever their wording"""
+    return [l for l in lines if l.strip()]
 
 
 def replay(rep):
